@@ -5,6 +5,11 @@ import (
 	"encoding/hex"
 	"encoding/json"
 	"fmt"
+	"hash/crc32"
+	"math/rand"
+	"net"
+	"net/netip"
+	"strconv"
 	"testing"
 	"time"
 
@@ -107,7 +112,190 @@ func runAllocs(vecs []*vector, tab *table, seed int64, cfg int, ids map[int]bool
 			emit(rec{T: "sample", ID: v.ID, Hex: hex.EncodeToString(data), Got: fmt.Sprintf("status=%s id=%d allocs=%.0f", v.Status, int(fr.PayloadID), n)})
 		}
 	}
+	packet.Logger.SetLevel(fastlog.LevelError)
+	runAllocSets(vecs, u, seed, ids, emit, cnt)
 	out.Flush()
 	go s.Close()
 	return map[string]interface{}{"count": cnt, "infra": []string{}}
+}
+
+// ---- steady state with many hosts: interleaved frames (spec: AllocSets) ---------------------------
+
+type allocSet struct {
+	Name     string `json:"name"`
+	Hosts    int    `json:"hosts"`
+	Families string `json:"families"`
+}
+
+type dualHost struct {
+	mac    net.HardwareAddr
+	ip4    netip.Addr // invalid when the LAN has no spare address
+	lla    netip.Addr
+	frames [][]byte // IPv4/UDP, IPv6/UDP, ARP (as available)
+}
+
+func fold(a netip.Addr, how string) byte {
+	b := a.As16()
+	switch how {
+	case "pair-sum-fold":
+		var s byte
+		for _, x := range b {
+			s += x
+		}
+		return s
+	case "pair-low-byte":
+		return b[15]
+	case "pair-crc8":
+		return byte(crc32.ChecksumIEEE(b[:]))
+	}
+	var s byte
+	for _, x := range b {
+		s ^= x
+	}
+	return s
+}
+
+// runAllocSets: a fresh session tracks many dual-stack hosts (IPv4 in-LAN address where the LAN has one,
+// link-local address with varied low bytes); every set of the specification is measured as a whole:
+// AllocsPerRun over one round robin of the frames of its hosts, which must be 0 (so must the per-frame average).
+func runAllocSets(vecs []*vector, u *vh.Universe, seed int64, ids map[int]bool, emit func(rec), cnt map[string]int) {
+	var sets []*vector
+	for _, v := range vecs {
+		if v.Fam == "allocset" && (ids == nil || ids[v.ID]) {
+			sets = append(sets, v)
+		}
+	}
+	if len(sets) == 0 {
+		return
+	}
+	s, err := packet.Config{Conn: vh.NewRecConn(), NICInfo: u.NICInfo(), ProbeDeadline: time.Minute,
+		OfflineDeadline: 2 * time.Minute, PurgeDeadline: time.Hour}.NewSession("")
+	if err != nil {
+		return
+	}
+	defer func() { go s.Close() }()
+	rng := rand.New(rand.NewSource(seed))
+	w := &worker{u: u, s: s}
+	const N = 200
+	hosts := make([]*dualHost, 0, N)
+	for i := 0; i < N; i++ {
+		h := &dualHost{mac: net.HardwareAddr{0x02, 0x00, 0x00, 0x09, byte(i >> 8), byte(i)}}
+		h.lla = netip.AddrFrom16([16]byte{0xfe, 0x80, 0, 0, 0, 0, 0, 0, 0, 0, 0, byte(rng.Intn(4)), byte(rng.Intn(256)), byte(i >> 4), byte(rng.Intn(256)), byte(i*7 + rng.Intn(3))})
+		if i < 189 {
+			if ip := u.IP("a" + strconv.Itoa(1+i)); u.Cfg.HomeLAN.Contains(ip) && ip != u.Cfg.HostIP && ip != u.Cfg.RouterIP {
+				h.ip4 = ip
+			}
+		}
+		f6 := w.staleFrame(1, rng)
+		copy(f6[6:12], h.mac)
+		b := h.lla.As16()
+		copy(f6[22:38], b[:])
+		h.frames = append(h.frames, nil, f6, nil)
+		if h.ip4.IsValid() {
+			f4 := w.staleFrame(0, rng)
+			copy(f4[6:12], h.mac)
+			a4 := h.ip4.As4()
+			copy(f4[26:30], a4[:])
+			fa := w.staleFrame(2, rng)
+			copy(fa[6:12], h.mac)
+			copy(fa[22:28], h.mac)
+			copy(fa[28:32], a4[:])
+			h.frames[0], h.frames[2] = f4, fa
+		}
+		for _, f := range h.frames {
+			if f != nil {
+				if fr, err := s.Parse(f); err != nil || fr.Host == nil {
+					emit(rec{T: "drift", What: "alloc-precondition", View: "Parse", Exp: "host tracked", Got: fmt.Sprint(err)})
+				}
+			}
+		}
+		hosts = append(hosts, h)
+	}
+	pick := func(h *dualHost, fam string) [][]byte {
+		var out [][]byte
+		add := func(i int) {
+			if h.frames[i] != nil {
+				out = append(out, h.frames[i])
+			}
+		}
+		switch fam {
+		case "ip4":
+			add(0)
+		case "ip6":
+			add(1)
+		case "dual":
+			add(0)
+			add(1)
+		default:
+			add(0)
+			add(1)
+			add(2)
+		}
+		return out
+	}
+	for _, v := range sets {
+		var as allocSet
+		if json.Unmarshal(v.C, &as) != nil {
+			continue
+		}
+		var frames [][]byte
+		what := as.Name
+		if as.Name == "round-robin" {
+			for _, h := range hosts[:as.Hosts] {
+				frames = append(frames, pick(h, as.Families)...)
+			}
+			what = fmt.Sprintf("round-robin-%d-%s", as.Hosts, as.Families)
+		} else {
+			// two hosts whose addresses collide under the fold; "pair-v4-v6-same-fold": an IPv4 and a link-local address
+			type ent struct {
+				a netip.Addr
+				f []byte
+			}
+			var all []ent
+			for _, h := range hosts {
+				if h.frames[0] != nil && as.Name != "pair-v4-v6-same-fold" {
+					all = append(all, ent{netip.AddrFrom16(h.ip4.As16()), h.frames[0]})
+				}
+				all = append(all, ent{h.lla, h.frames[1]})
+			}
+			how := as.Name
+			if how == "pair-v4-v6-same-fold" {
+				how = "pair-xor-fold"
+				for _, h := range hosts {
+					if h.frames[0] != nil {
+						all = append(all, ent{netip.AddrFrom16(h.ip4.As16()), h.frames[0]})
+					}
+				}
+			}
+			seen := map[byte]ent{}
+			pairs := 0
+			for _, e := range all {
+				k := fold(e.a, how)
+				if o, ok := seen[k]; ok && o.a != e.a && pairs < 12 {
+					if as.Name != "pair-v4-v6-same-fold" || o.a.Is4In6() != e.a.Is4In6() {
+						frames = append(frames, o.f, e.f)
+						pairs++
+					}
+				}
+				if _, ok := seen[k]; !ok || as.Name == "pair-v4-v6-same-fold" && !e.a.Is4In6() {
+					seen[k] = e
+				}
+			}
+		}
+		if len(frames) < 2 {
+			cnt["allocset_empty"]++
+			continue
+		}
+		n := testing.AllocsPerRun(50, func() {
+			for _, f := range frames {
+				s.Parse(f)
+			}
+		})
+		cnt["allocset_measured"]++
+		cnt["allocset_frames"] += len(frames)
+		if n != 0 {
+			emit(rec{T: "mm", ID: v.ID, Prop: "C16", What: "allocs", View: "Parse", G: what, Exp: "0",
+				Got: fmt.Sprintf("%.0f allocations per round of %d interleaved frames of tracked, online hosts (%s)", n, len(frames), what)})
+		}
+	}
 }
